@@ -1,6 +1,29 @@
 /- Proofs/C07 — helper lemmas for Props/C07 (core Lean only). -/
 import CfVerif.Model.C07
+import CfVerif.Spec.C07
 namespace CfVerif.C07
+
+/-! ### header fields and the match condition -/
+
+/-- finite core: for all 256 header bytes the translated `CRTPPacket` expressions are the port nibble and
+the two channel bits -/
+theorem hdr_fields_all : ∀ h : Fin 256, pkPort h.val = h.val / 16 ∧ pkChan h.val = h.val % 4 := by
+  decide +kernel
+
+theorem hdr_fields {h : Nat} (hh : h < 256) : pkPort h = h / 16 ∧ pkChan h = h % 4 :=
+  hdr_fields_all ⟨h, hh⟩
+
+theorem matches_eq_spec (r : Reg) {h : Nat} (hh : h < 256) : r.matches h = specMatches r h := by
+  obtain ⟨h1, h2⟩ := hdr_fields hh
+  simp only [Reg.matches, Gen.C07.matchExpr, specMatches, h1, h2]
+
+theorem filter_matches_eq_spec (l : List Reg) {h : Nat} (hh : h < 256) :
+    l.filter (·.matches h) = l.filter (specMatches · h) := by
+  congr 1; funext r; exact matches_eq_spec r hh
+
+theorem same_iff (x r : Reg) : x.same r = true ↔ x = r := by
+  cases x; cases r
+  simp [Reg.same, and_assoc]
 
 /-! ### what a callback body can append to the trace -/
 
@@ -55,38 +78,37 @@ theorem invoke_trace (v : Variant) (beh : Beh) (st : St) (e : Ev) :
   · simp only [invoke]; rw [h1]; simp [St.push]
   · simp only [invoke]; rw [h3]; rfl
 
-theorem callsOf_append (a b : List Ev) : callsOf (a ++ b) = callsOf a ++ callsOf b := by
-  simp [callsOf, List.filterMap_append]
+theorem invoke_dead (v : Variant) (beh : Beh) (st : St) (e : Ev) : (invoke v beh st e).1.dead = st.dead :=
+  (invoke_trace v beh st e).choose_spec.2.2
 
-theorem callsOf_body (ext : List Ev) (h : ∀ e ∈ ext, e.isBody = true) : callsOf ext = [] := by
+/-- a projection that ignores body events sees nothing in a list of body events -/
+theorem filterMap_body {α : Type} (f : Ev → Option α) (hf : ∀ e, e.isBody = true → f e = none) :
+    ∀ ext : List Ev, (∀ e ∈ ext, e.isBody = true) → ext.filterMap f = [] := by
+  intro ext
   induction ext with
-  | nil => rfl
+  | nil => intro _; rfl
   | cons e es ih =>
-    have he := h e (by simp)
-    have := ih (fun x hx => h x (by simp [hx]))
-    cases e <;> simp_all [callsOf, Ev.isBody]
+    intro h
+    rw [List.filterMap_cons, hf e (h e (by simp)), ih (fun x hx => h x (by simp [hx]))]
 
-theorem invoke_calls (v : Variant) (beh : Beh) (st : St) (r : Reg) :
-    callsOf (invoke v beh st (.call r)).1.trace = callsOf st.trace ++ [r] := by
-  obtain ⟨ext, h1, h2, _⟩ := invoke_trace v beh st (.call r)
-  rw [h1, callsOf_append]
-  have : callsOf (Ev.call r :: ext) = r :: callsOf ext := by simp [callsOf]
-  rw [this, callsOf_body ext h2]
+theorem asCall_body : ∀ e : Ev, e.isBody = true → e.asCall = none := by
+  intro e h; cases e <;> simp_all [Ev.isBody, Ev.asCall]
+theorem asAllCall_body : ∀ e : Ev, e.isBody = true → e.asAllCall = none := by
+  intro e h; cases e <;> simp_all [Ev.isBody, Ev.asAllCall]
+theorem asPkt_body : ∀ e : Ev, e.isBody = true → e.asPkt = none := by
+  intro e h; cases e <;> simp_all [Ev.isBody, Ev.asPkt]
+theorem asDelivery_body : ∀ e : Ev, e.isBody = true → e.asDelivery = none := by
+  intro e h; cases e <;> simp_all [Ev.isBody, Ev.asDelivery]
+
+/-- projection of the trace after invoking a callback -/
+theorem invoke_proj {α : Type} (f : Ev → Option α) (hf : ∀ e, e.isBody = true → f e = none)
+    (v : Variant) (beh : Beh) (st : St) (e : Ev) :
+    (invoke v beh st e).1.trace.filterMap f = st.trace.filterMap f ++ (f e).toList := by
+  obtain ⟨ext, h1, h2, _⟩ := invoke_trace v beh st e
+  rw [h1, List.filterMap_append, List.filterMap_cons, filterMap_body f hf ext h2]
+  cases f e <;> simp
 
 /-! ### the snapshot dispatcher calls exactly the matching registrations of the snapshot -/
-
-theorem dispatchSnap_calls (v : Variant) (beh : Beh) (hdr : Nat) : ∀ (rs : List Reg) (st : St),
-    callsOf (dispatchSnap v beh hdr rs st).trace = callsOf st.trace ++ rs.filter (·.matches hdr) := by
-  intro rs
-  induction rs with
-  | nil => intro st; simp [dispatchSnap]
-  | cons r rs ih =>
-    intro st
-    simp only [dispatchSnap]
-    by_cases hm : r.matches hdr = true
-    · rw [if_pos hm, ih, invoke_calls, List.filter_cons_of_pos (by simpa using hm)]
-      simp
-    · rw [if_neg hm, ih, List.filter_cons_of_neg (by simpa using hm)]
 
 theorem dispatchSnap_dead (v : Variant) (beh : Beh) (hdr : Nat) : ∀ (rs : List Reg) (st : St),
     (dispatchSnap v beh hdr rs st).dead = st.dead := by
@@ -97,7 +119,415 @@ theorem dispatchSnap_dead (v : Variant) (beh : Beh) (hdr : Nat) : ∀ (rs : List
     intro st
     simp only [dispatchSnap]
     split
-    · rw [ih]; exact (invoke_trace v beh st (.call r)).choose_spec.2.2
+    · rw [ih]; exact invoke_dead v beh st (.call r)
     · exact ih st
+
+/-- the trace only grows, by invocations of port callbacks and what their bodies do -/
+theorem dispatchSnap_ext (v : Variant) (beh : Beh) (hdr : Nat) : ∀ (rs : List Reg) (st : St),
+    ∃ ext, (dispatchSnap v beh hdr rs st).trace = st.trace ++ ext := by
+  intro rs
+  induction rs with
+  | nil => intro st; exact ⟨[], by simp [dispatchSnap]⟩
+  | cons r rs ih =>
+    intro st
+    simp only [dispatchSnap]
+    split
+    · obtain ⟨e1, h1, _, _⟩ := invoke_trace v beh st (.call r)
+      obtain ⟨e2, h2⟩ := ih (invoke v beh st (.call r)).1
+      exact ⟨Ev.call r :: e1 ++ e2, by rw [h2, h1]; simp⟩
+    · exact ih st
+
+theorem dispatchSnap_deliveries (v : Variant) (beh : Beh) (hdr : Nat) : ∀ (rs : List Reg) (st : St),
+    deliveries (dispatchSnap v beh hdr rs st).trace
+      = deliveries st.trace ++ (rs.filter (·.matches hdr)).map Ev.call := by
+  intro rs
+  induction rs with
+  | nil => intro st; simp [dispatchSnap]
+  | cons r rs ih =>
+    intro st
+    simp only [dispatchSnap]
+    by_cases hm : r.matches hdr = true
+    · rw [if_pos hm, ih, List.filter_cons_of_pos (by simpa using hm)]
+      unfold deliveries
+      rw [invoke_proj _ asDelivery_body]
+      simp [Ev.asDelivery]
+    · rw [if_neg hm, ih, List.filter_cons_of_neg (by simpa using hm)]
+
+theorem dispatchSnap_calls (v : Variant) (beh : Beh) (hdr : Nat) : ∀ (rs : List Reg) (st : St),
+    callsOf (dispatchSnap v beh hdr rs st).trace = callsOf st.trace ++ rs.filter (·.matches hdr) := by
+  intro rs
+  induction rs with
+  | nil => intro st; simp [dispatchSnap]
+  | cons r rs ih =>
+    intro st
+    simp only [dispatchSnap]
+    by_cases hm : r.matches hdr = true
+    · rw [if_pos hm, ih, List.filter_cons_of_pos (by simpa using hm)]
+      unfold callsOf
+      rw [invoke_proj _ asCall_body]
+      simp [Ev.asCall]
+    · rw [if_neg hm, ih, List.filter_cons_of_neg (by simpa using hm)]
+
+theorem dispatchSnap_pkts (v : Variant) (beh : Beh) (hdr : Nat) : ∀ (rs : List Reg) (st : St),
+    pktsOf (dispatchSnap v beh hdr rs st).trace = pktsOf st.trace := by
+  intro rs
+  induction rs with
+  | nil => intro st; simp [dispatchSnap]
+  | cons r rs ih =>
+    intro st
+    simp only [dispatchSnap]
+    split
+    · rw [ih]; unfold pktsOf; rw [invoke_proj _ asPkt_body]; simp [Ev.asPkt]
+    · exact ih st
+
+/-- the events of a snapshot dispatch satisfy the loose dispatch specification -/
+theorem spec_of_calls {regs : List Reg} (hnd : regs.Nodup) {hdr : Nat} {ev : List Ev}
+    (hc : callsOf ev = regs.filter (specMatches · hdr)) : SpecHolds regs hdr ev := by
+  refine ⟨?_, ?_, ?_, ?_⟩
+  · intro r hr _
+    rw [hc]
+    by_cases hm : specMatches r hdr = true
+    · rw [if_pos hm, List.count_filter (by simpa using hm)]
+      rw [hnd.count, if_pos hr]
+    · rw [if_neg hm]
+      exact List.count_eq_zero_of_not_mem (fun h => hm (by simpa using (List.mem_filter.mp h).2))
+  · rw [hc]; exact hnd.sublist List.filter_sublist
+  · intro r hr; rw [hc] at hr; simpa using (List.mem_filter.mp hr).2
+  · rw [hc]; exact List.filter_sublist.trans List.filter_sublist
+
+theorem newEvents_of_ext {st st' : St} {ext : List Ev} (h : st'.trace = st.trace ++ ext) :
+    newEvents st st' = ext := by
+  simp [newEvents, h]
+
+/-! ### `remove_header_callback` -/
+
+/-- erasing the first occurrence of `r` `n` times -/
+def eraseN (r : Reg) : Nat → List Reg → List Reg
+  | 0, l => l
+  | n + 1, l => eraseN r n (l.erase r)
+
+theorem removeGo_eq (r : Reg) : ∀ (xs l : List Reg), removeGo r xs l = eraseN r (xs.count r) l := by
+  intro xs
+  induction xs with
+  | nil => intro l; rfl
+  | cons x xs ih =>
+    intro l
+    simp only [removeGo]
+    by_cases hx : x.same r = true
+    · have hxr : x = r := (same_iff x r).mp hx
+      rw [if_pos hx, ih, hxr, List.count_cons_self]
+      rfl
+    · have hxr : ¬ x = r := fun h => hx ((same_iff x r).mpr h)
+      rw [if_neg hx, ih, List.count_cons_of_ne hxr]
+
+theorem eraseN_filter (r : Reg) : ∀ (n : Nat) (l : List Reg), l.count r ≤ n → eraseN r n l = l.filter (· ≠ r) := by
+  intro n
+  induction n with
+  | zero =>
+    intro l h
+    have : r ∉ l := fun hm => by have := List.count_pos_iff.mpr hm; omega
+    simp only [eraseN]
+    exact (List.filter_eq_self.mpr (fun a ha => by simpa using fun h : a = r => this (h ▸ ha))).symm
+  | succ n ih =>
+    intro l h
+    simp only [eraseN]
+    rw [ih (l.erase r) (by rw [List.count_erase_self]; omega)]
+    induction l with
+    | nil => rfl
+    | cons a l ihl =>
+      by_cases ha : a = r
+      · subst ha; simp
+      · have : (a == r) = false := by simpa using ha
+        rw [List.erase_cons_tail (by simpa using ha), List.filter_cons_of_pos (by simpa using ha),
+          List.filter_cons_of_pos (by simpa using ha)]
+        congr 1
+        by_cases hm : r ∈ l
+        · exact ihl (by rw [List.count_cons_of_ne ha] at h; exact h)
+        · rw [List.erase_of_not_mem hm]
+
+theorem removeHeaderCallback_eq_filter (l : List Reg) (r : Reg) :
+    removeHeaderCallback l r = l.filter (· ≠ r) := by
+  rw [removeHeaderCallback, removeGo_eq, eraseN_filter r _ l (Nat.le_refl _)]
+
+/-! ### bodies that cannot raise; the all-packet callbacks -/
+
+theorem runActs_noRaise (v : Variant) : ∀ (acts : List Act) (st : St), NoRaise acts →
+    (runActs v st acts).2 = false := by
+  intro acts
+  induction acts with
+  | nil => intro st _; rfl
+  | cons a as ih =>
+    intro st h
+    have ha := h a (by simp)
+    have hr : NoRaise as := fun x hx => h x (by simp [hx])
+    cases a with
+    | add r => simp only [runActs]; exact ih _ hr
+    | remove r => simp only [runActs]; exact ih _ hr
+    | addAll c => simp only [runActs]; exact ih _ hr
+    | removeAll c => exact absurd rfl (ha.2 c)
+    | raise => exact absurd rfl ha.1
+
+/-- events appended by `Caller.call` -/
+def Ev.isCaller : Ev → Bool
+  | .callAll _ => true
+  | .died => true
+  | e => e.isBody
+
+theorem callerGo_trace (v : Variant) (beh : Beh) : ∀ (cs : List Nat) (st : St),
+    ∃ ext, (callerGo v beh cs st).trace = st.trace ++ ext ∧ (∀ e ∈ ext, e.isCaller = true) := by
+  intro cs
+  induction cs with
+  | nil => intro st; exact ⟨[], by simp [callerGo]⟩
+  | cons c cs ih =>
+    intro st
+    obtain ⟨e1, h1, hb1, _⟩ := invoke_trace v beh st (.callAll c)
+    have hcaller : ∀ x ∈ Ev.callAll c :: e1, x.isCaller = true := by
+      intro x hx
+      cases hx with
+      | head => rfl
+      | tail _ hx => have := hb1 x hx; cases x <;> simp_all [Ev.isCaller, Ev.isBody]
+    simp only [callerGo]
+    cases hinv : invoke v beh st (.callAll c) with
+    | mk st2 raised =>
+      rw [hinv] at h1
+      cases raised with
+      | true =>
+        refine ⟨Ev.callAll c :: e1 ++ [.died], ?_, ?_⟩
+        · simp only [St.push]; simp only [] at h1; rw [h1]; simp
+        · intro x hx
+          rcases List.mem_append.mp hx with hx | hx
+          · exact hcaller x hx
+          · simp at hx; subst hx; rfl
+      | false =>
+        obtain ⟨e2, h2, hb2⟩ := ih st2
+        refine ⟨Ev.callAll c :: e1 ++ e2, ?_, ?_⟩
+        · simp only []; simp only [] at h1; rw [h2, h1]; simp
+        · intro x hx
+          rcases List.mem_append.mp hx with hx | hx
+          · exact hcaller x hx
+          · exact hb2 x hx
+
+theorem filterMap_caller {α : Type} (f : Ev → Option α) (hf : ∀ e, e.isCaller = true → f e = none) :
+    ∀ ext : List Ev, (∀ e ∈ ext, e.isCaller = true) → ext.filterMap f = [] := by
+  intro ext
+  induction ext with
+  | nil => intro _; rfl
+  | cons e es ih =>
+    intro h
+    rw [List.filterMap_cons, hf e (h e (by simp)), ih (fun x hx => h x (by simp [hx]))]
+
+theorem asPkt_caller : ∀ e : Ev, e.isCaller = true → e.asPkt = none := by
+  intro e h; cases e <;> simp_all [Ev.isCaller, Ev.isBody, Ev.asPkt]
+theorem asDelivery_caller : ∀ e : Ev, e.isCaller = true → e.asDelivery = none := by
+  intro e h; cases e <;> simp_all [Ev.isCaller, Ev.isBody, Ev.asDelivery]
+theorem asCall_caller : ∀ e : Ev, e.isCaller = true → e.asCall = none := by
+  intro e h; cases e <;> simp_all [Ev.isCaller, Ev.isBody, Ev.asCall]
+
+/-- taking a packet and running the all-packet callbacks delivers nothing to port callbacks -/
+theorem afterAll_proj {α : Type} (f : Ev → Option α) (hf : ∀ e, e.isCaller = true → f e = none)
+    (v : Variant) (beh : Beh) (st : St) (hdr : Nat) :
+    (afterAll v beh st hdr).trace.filterMap f = st.trace.filterMap f ++ (f (.pkt hdr)).toList := by
+  obtain ⟨ext, h1, h2⟩ := callerGo_trace v beh (st.push (.pkt hdr)).all (st.push (.pkt hdr))
+  unfold afterAll callerCall
+  rw [h1, List.filterMap_append, filterMap_caller f hf ext h2]
+  simp only [St.push, List.filterMap_append, List.append_nil]
+  cases hf' : f (.pkt hdr) <;> simp [hf']
+
+theorem getLast_push (st : St) (e : Ev) : (st.push e).trace.getLast? = some e := by
+  simp [St.push]
+
+theorem callerGo_quiet (v : Variant) (beh : Beh) (hq : AllPacketCallbacksQuiet beh) :
+    ∀ (cs : List Nat) (st : St), (callerGo v beh cs st).dead = st.dead ∧
+      allCallsOf (callerGo v beh cs st).trace = allCallsOf st.trace ++ cs := by
+  intro cs
+  induction cs with
+  | nil => intro st; simp [callerGo]
+  | cons c cs ih =>
+    intro st
+    have hnr : (invoke v beh st (.callAll c)).2 = false := by
+      simp only [invoke]
+      exact runActs_noRaise v _ _ (hq _ c (getLast_push st _))
+    have hd := invoke_dead v beh st (.callAll c)
+    have hp := invoke_proj _ asAllCall_body v beh st (.callAll c)
+    simp only [callerGo]
+    cases hinv : invoke v beh st (.callAll c) with
+    | mk st2 raised =>
+      rw [hinv] at hnr hd hp
+      simp only [] at hnr hd hp
+      subst hnr
+      simp only []
+      obtain ⟨i1, i2⟩ := ih st2
+      refine ⟨by rw [i1, hd], ?_⟩
+      rw [i2]; unfold allCallsOf; rw [hp]; simp [Ev.asAllCall]
+
+/-! ### one packet, then a sequence of packets -/
+
+theorem handlePacket_dead_of_dead (v : Variant) (beh : Beh) (st : St) (hdr : Nat) (h : st.dead = true) :
+    handlePacket v beh st hdr = st := by
+  simp [handlePacket, h]
+
+theorem handlePacket_deliveries (v : Variant) (hv : v.snapDispatch = true) (beh : Beh) (st : St) (hdr : Nat)
+    (halive : st.dead = false) :
+    deliveries (handlePacket v beh st hdr).trace = deliveries st.trace ++ Ev.pkt hdr ::
+      (if (afterAll v beh st hdr).dead then []
+       else ((afterAll v beh st hdr).regs.filter (·.matches hdr)).map Ev.call) := by
+  have h1 : deliveries (afterAll v beh st hdr).trace = deliveries st.trace ++ [Ev.pkt hdr] := by
+    unfold deliveries; rw [afterAll_proj _ asDelivery_caller]; rfl
+  simp only [handlePacket, halive]
+  by_cases hd : (afterAll v beh st hdr).dead = true
+  · simp [hd, h1]
+  · simp only [hd, dispatch, hv, Bool.false_eq_true, if_false, if_true]
+    rw [dispatchSnap_deliveries, h1]
+    simp
+
+theorem run_deliveries (v : Variant) (hv : v.snapDispatch = true) (beh : Beh) :
+    ∀ (hdrs : List Nat) (st : St), (∀ h ∈ hdrs, h < 256) →
+      deliveries (run v beh st hdrs).trace = deliveries st.trace ++ expectedDeliveries v beh st hdrs := by
+  intro hdrs
+  induction hdrs with
+  | nil => intro st _; simp [run, expectedDeliveries]
+  | cons h hs ih =>
+    intro st hb
+    have hh : h < 256 := hb h (by simp)
+    have ih' := ih (handlePacket v beh st h) (fun x hx => hb x (by simp [hx]))
+    simp only [run, List.foldl_cons] at ih' ⊢
+    rw [ih']
+    by_cases hd : st.dead = true
+    · rw [handlePacket_dead_of_dead v beh st h hd]
+      have : ∀ l, expectedDeliveries v beh st l = [] := by
+        intro l; cases l <;> simp [expectedDeliveries, hd]
+      rw [this, this]
+    · have hd' : st.dead = false := by simpa using hd
+      rw [handlePacket_deliveries v hv beh st h hd']
+      simp only [expectedDeliveries, hd', filter_matches_eq_spec _ hh]
+      simp
+
+theorem handlePacket_pkts (v : Variant) (hv : v.snapDispatch = true) (beh : Beh) (st : St) (hdr : Nat)
+    (halive : st.dead = false) :
+    pktsOf (handlePacket v beh st hdr).trace = pktsOf st.trace ++ [hdr] := by
+  have h1 : pktsOf (afterAll v beh st hdr).trace = pktsOf st.trace ++ [hdr] := by
+    unfold pktsOf; rw [afterAll_proj _ asPkt_caller]; rfl
+  simp only [handlePacket, halive]
+  by_cases hd : (afterAll v beh st hdr).dead = true
+  · simp [hd, h1]
+  · simp only [hd, dispatch, hv, Bool.false_eq_true, if_false, if_true]
+    rw [dispatchSnap_pkts, h1]
+
+theorem handlePacket_alive (v : Variant) (hv : v.snapDispatch = true) (beh : Beh)
+    (hq : AllPacketCallbacksQuiet beh) (st : St) (hdr : Nat) (halive : st.dead = false) :
+    (handlePacket v beh st hdr).dead = false := by
+  have h1 : (afterAll v beh st hdr).dead = false := by
+    unfold afterAll callerCall
+    rw [(callerGo_quiet v beh hq _ _).1]
+    exact halive
+  simp only [handlePacket, halive, h1, dispatch, hv]
+  simp only [Bool.false_eq_true, if_false, if_true]
+  rw [dispatchSnap_dead]; exact h1
+
+theorem run_processes_all (v : Variant) (hv : v.snapDispatch = true) (beh : Beh)
+    (hq : AllPacketCallbacksQuiet beh) : ∀ (hdrs : List Nat) (st : St), st.dead = false →
+      (run v beh st hdrs).dead = false ∧ pktsOf (run v beh st hdrs).trace = pktsOf st.trace ++ hdrs := by
+  intro hdrs
+  induction hdrs with
+  | nil => intro st h; simp [run, h]
+  | cons h hs ih =>
+    intro st halive
+    have := ih (handlePacket v beh st h) (handlePacket_alive v hv beh hq st h halive)
+    simp only [run, List.foldl_cons] at this ⊢
+    rw [this.2, handlePacket_pkts v hv beh st h halive]
+    exact ⟨this.1, by simp⟩
+
+/-! ### callbacks that only raise leave the registry alone -/
+
+theorem runActs_static (v : Variant) (st : St) (acts : List Act) (h : ∀ a ∈ acts, a = Act.raise) :
+    (runActs v st acts).1.regs = st.regs ∧ (runActs v st acts).1.all = st.all := by
+  cases acts with
+  | nil => simp [runActs]
+  | cons a as =>
+    have := h a (by simp)
+    subst this
+    simp [runActs, St.push]
+
+theorem dispatchSnap_static (v : Variant) (beh : Beh) (hs : ∀ tr, ∀ a ∈ beh tr, a = Act.raise) (hdr : Nat) :
+    ∀ (rs : List Reg) (st : St), (dispatchSnap v beh hdr rs st).regs = st.regs ∧
+      (dispatchSnap v beh hdr rs st).all = st.all := by
+  intro rs
+  induction rs with
+  | nil => intro st; simp [dispatchSnap]
+  | cons r rs ih =>
+    intro st
+    simp only [dispatchSnap]
+    split
+    · obtain ⟨i1, i2⟩ := ih (invoke v beh st (.call r)).1
+      obtain ⟨j1, j2⟩ := runActs_static v (st.push (.call r)) (beh (st.push (.call r)).trace) (hs _)
+      simp only [invoke] at i1 i2 ⊢
+      rw [i1, i2, j1, j2]
+      simp [St.push]
+    · exact ih st
+
+
+theorem afterAll_no_all (v : Variant) (beh : Beh) (st : St) (hdr : Nat) (hall : st.all = []) :
+    afterAll v beh st hdr = st.push (.pkt hdr) := by
+  simp [afterAll, callerCall, St.push, hall, callerGo]
+
+theorem handlePacket_static (v : Variant) (hv : v.snapDispatch = true) (beh : Beh)
+    (hs : ∀ tr, ∀ a ∈ beh tr, a = Act.raise) (st : St) (hdr : Nat) (halive : st.dead = false)
+    (hall : st.all = []) :
+    (handlePacket v beh st hdr).regs = st.regs ∧ (handlePacket v beh st hdr).all = [] ∧
+    (handlePacket v beh st hdr).dead = false ∧
+    deliveries (handlePacket v beh st hdr).trace
+      = deliveries st.trace ++ Ev.pkt hdr :: (st.regs.filter (·.matches hdr)).map Ev.call := by
+  have hd := handlePacket_deliveries v hv beh st hdr halive
+  rw [afterAll_no_all v beh st hdr hall] at hd
+  simp only [St.push, halive, Bool.false_eq_true, if_false] at hd
+  refine ⟨?_, ?_, ?_, hd⟩
+  all_goals
+    simp only [handlePacket, halive, afterAll_no_all v beh st hdr hall, dispatch, hv, St.push,
+      Bool.false_eq_true, if_false, if_true]
+  · rw [(dispatchSnap_static v beh hs hdr _ _).1]
+  · rw [(dispatchSnap_static v beh hs hdr _ _).2]; exact hall
+  · rw [dispatchSnap_dead]
+
+theorem run_static (v : Variant) (hv : v.snapDispatch = true) (beh : Beh)
+    (hs : ∀ tr, ∀ a ∈ beh tr, a = Act.raise) : ∀ (hdrs : List Nat) (st : St), st.dead = false → st.all = [] →
+      (∀ h ∈ hdrs, h < 256) →
+      deliveries (run v beh st hdrs).trace = deliveries st.trace ++
+        hdrs.flatMap (fun h => Ev.pkt h :: (st.regs.filter (specMatches · h)).map Ev.call) ∧
+      (run v beh st hdrs).regs = st.regs ∧ (run v beh st hdrs).dead = false := by
+  intro hdrs
+  induction hdrs with
+  | nil => intro st h _ _; simp [run, h]
+  | cons h hs' ih =>
+    intro st halive hall hb
+    obtain ⟨h1, h2, h3, h4⟩ := handlePacket_static v hv beh hs st h halive hall
+    have := ih (handlePacket v beh st h) h3 h2 (fun x hx => hb x (by simp [hx]))
+    simp only [run, List.foldl_cons] at this ⊢
+    rw [this.1, this.2.1, this.2.2, h4, h1, filter_matches_eq_spec _ (hb h (by simp))]
+    simp
+
+/-! ### the Caller -/
+
+theorem callerAdd_nodup (l : List Nat) (c : Nat) (h : l.Nodup) : (callerAdd l c).Nodup := by
+  unfold callerAdd
+  split
+  · exact h
+  · rename_i hc
+    have hc' : c ∉ l := by simpa using hc
+    rw [List.nodup_append]
+    refine ⟨h, by simp, ?_⟩
+    intro a ha b hb
+    simp at hb; subst hb
+    exact fun hab => hc' (hab ▸ ha)
+
+theorem callerRemove_spec (l : List Nat) (c : Nat) (h : l.Nodup) :
+    (c ∈ l → ∃ l', callerRemove l c = some l' ∧ c ∉ l' ∧ l' = l.filter (· ≠ c)) ∧
+    (c ∉ l → callerRemove l c = none) := by
+  unfold callerRemove
+  constructor
+  · intro hc
+    refine ⟨l.erase c, by simp [hc], ?_, ?_⟩
+    · exact fun hm => (List.Nodup.mem_erase_iff h).mp hm |>.1 rfl
+    · rw [List.Nodup.erase_eq_filter h c]; congr 1; funext x; by_cases hx : x = c <;> simp [hx]
+  · intro hc; simp [hc]
 
 end CfVerif.C07
